@@ -77,7 +77,7 @@ class ClientContract(Contract):
 
 
 class ConvertValue(ClientContract):
-    props = ("C11", "C03", "C13")
+    props = ("C11", "C03", "C13", "C18")      # C18: input models are dumped by alias - the GraphQL name stays the wire name
     method = "_convert_value"
 
     def setup(self, E):
